@@ -373,6 +373,53 @@ func runCrashSim(r *Run, prop string, cfg PipeCfg, st *Stream, maxCrashes int, c
 	return ps, o
 }
 
+// connLoss severs the target connections of the current incarnation (a drawn prefix of the requests already written
+// still executes) WITHOUT stopping the tool: Send ends by itself with an error, and the next incarnation runs on the same
+// output object — the restart RedisInput.Run performs inside one process after any replay error.
+func (ps *PipeSim) connLoss(c *simrt.Chooser) {
+	in := ps.inc
+	ps.r.W.Fault("conn_loss_soft_restart")
+	ps.r.Logf("CONNECTION LOSS, in-process restart of incarnation %d", in.id)
+	ps.r.Net.DialFault = func(string) error { return errors.New("target unreachable") }
+	for _, ss := range ps.srv.Live() {
+		if ss.Dead || ss.Conn.Tag != in.id {
+			continue
+		}
+		n := ps.srv.PendingCount(ss)
+		k := 0
+		if n > 0 {
+			k = c.Choose("loss_exec_more", n+1)
+		}
+		done := ps.srv.KillSession(ss, k)
+		ps.r.Logf("  %s: %d pending, %d still executed", ss.LabelString(), n, done)
+	}
+	for i := 0; i < 600 && in.getPhase() != 2; i++ {
+		ps.r.Settle()
+		for _, ss := range ps.srv.Sessions {
+			if !ss.Dead && ss.Conn.Tag == in.id {
+				ps.srv.KillSession(ss, 0)
+			}
+		}
+		if i == 300 {
+			in.cancel() // an idle sender notices nothing until its next write: the run scope ends it (source side closed)
+			in.mu.Lock()
+			rd := in.reader
+			in.mu.Unlock()
+			if rd != nil {
+				rd.pipe.CloseWith(errors.New("run scope closed"))
+			}
+		}
+		ps.r.Advance(100 * time.Millisecond)
+	}
+	ps.r.Settle()
+	if in.getPhase() != 2 {
+		Inconc("incarnation %d did not end after connection loss", in.id)
+	}
+	ps.r.Net.DialFault = nil
+	ps.absorb()
+	ps.reuse = in.ro
+}
+
 func (ps *PipeSim) killAll(tag int) {
 	for _, ss := range ps.srv.Sessions {
 		if !ss.Dead && ss.Conn.Tag == tag {
